@@ -29,6 +29,14 @@ CFG = {
         "Leptos.View.setCssProperty_attrs",
         "Leptos.View.removeCssProperty_attrs",
         "Leptos.View.rebuild_core",
+        "Leptos.View.C03_staticvec_rebuild",
+        "Leptos.View.C03_staticvec_rebuild_items",
+        "Leptos.View.C03_staticvec_rebuild_child",
+        "Leptos.View.C03_staticvec_rebuild_elem",
+        "Leptos.View.staticvec_child_spec",
+        "Leptos.View.build_mount_pframe",
+        "Leptos.View.unmount_ready",
+        "Leptos.View.StateOk.elemChild",
         "Leptos.View.C03_spread_typed",
         "Leptos.View.hasTy_spread",
         "Leptos.View.wf_spread",
@@ -90,7 +98,8 @@ CFG = {
         "View.spread / Ty.spread (the item becomes the last attribute of every top-level element; AnyView hands it to its content)",
         "StaticVec is covered by a C03-LOCAL wrapper in lean/Driver/C03.lean (`rebuildSv`; the shared View / State have no constructor): its "
         "state is the tuple state (no marker), build / mount / unmount are the tuple's, rebuild = model unmount of the old items, model build of the "
-        "new ones, model mount with no marker (END of the parent) = StaticVec::rebuild at HEAD; for an element with a StaticVec child the "
+        "new ones, model mount with no marker (END of the parent) = StaticVec::rebuild at HEAD (that this composition gives the fresh render "
+        "for a region at the end of its parent is a theorem: C03_staticvec_rebuild, _items, _child, _elem); for an element with a StaticVec child the "
         "element's attributes are rebuilt by the model's rebuild with the OLD children (a no-op on them)",
         "oracle normal form: attributes compared as a map, class as a token set, style as a declaration map, an empty "
         "class/style attribute identified with an absent one; node identity and mutation counters are compared between "
